@@ -11,7 +11,97 @@ ORACLE = {
 }["C02"]
 
 
+REUSE_Q = (("USA", "ms_example_resilient"), ("IND", "yaml_net_baseline"), ("LUX", "ms_worst"), ("ARG", "ms_example_resilient"))
+REUSE_T = REUSE_Q + (("BRA", "yaml_net_baseline"), ("DJI", "ms_example_resilient"), ("CHN", "ms_worst"), ("NZL", "yaml_nw_reduced"), ("WOR", "ms_example_resilient"))
+
+
+def reuse_job(j):
+    """call histories on ONE Optimizer object: the instance of the feed-maximising round of a real run (captured with its pinned
+    human consumption) is solved on one object with the pins [as captured, x0.95, x0.9 (thorough), as captured] one after the other,
+    and the people-maximising instance twice; every reported optimum must equal the optimum a fresh object reports for the same
+    call (which the main exploration compares with the independent formulation): a call's result is a function of its arguments."""
+    import copy
+    from .. import common, options
+    from ..common import violation
+    iso, pn, factors = j
+    pipeline.init()
+    Opt = pipeline._P["Optimizer"]
+    got = {}
+    orig_feed = Opt.optimize_feed_to_animals
+
+    def spy(self, c, t, pins):
+        got.setdefault("feed", (copy.deepcopy(c), copy.deepcopy(t), copy.deepcopy(pins)))
+        return orig_feed(self, c, t, pins)
+    Opt.optimize_feed_to_animals = spy
+    try:
+        cap = pipeline.execute(iso, options.preset(pn), "c02reuse_%s_%s" % (pn, iso), want_inputs=True)
+    finally:
+        Opt.optimize_feed_to_animals = orig_feed
+    out = {"v": [], "n": 0, "skipped": None}
+    import os, sys
+    rdir = os.path.join(sys.modules["src.optimizer.interpret_results"].repo_root, "results")
+    for f in os.listdir(rdir):
+        if f.startswith("c02reuse_%s_%s" % (pn, iso)):
+            try:
+                os.remove(os.path.join(rdir, f))
+            except FileNotFoundError:
+                pass
+    if cap["error"]:
+        out["skipped"] = cap["error"]
+        return out
+
+    def scaled(pins, k):
+        return {name: (v * k if hasattr(v, "kcals") and k != 1.0 else copy.deepcopy(v)) for name, v in pins.items()}
+
+    def call(o, kind, c, t, pins=None):
+        with common.quiet():
+            try:
+                if kind == "feed":
+                    return float(o.optimize_feed_to_animals(c, t, pins)[3])
+                return float(o.optimize_to_humans(c, t)[3])
+            except AssertionError:
+                return None
+    key = {"iso3": iso, "preset": pn}
+    rp = {"reuse": [iso, pn, list(factors)]}
+    if "feed" in got:
+        c, t, pins = got["feed"]
+        seq = [1.0] + list(factors) + [1.0]
+        fresh = {}
+        for k in set(seq):
+            c1, t1 = copy.deepcopy(c), copy.deepcopy(t)
+            with common.quiet():
+                o = Opt(c1, t1)
+            fresh[k] = call(o, "feed", c1, t1, scaled(pins, k))
+        c1, t1 = copy.deepcopy(c), copy.deepcopy(t)
+        with common.quiet():
+            o = Opt(c1, t1)
+        for i, k in enumerate(seq):
+            out["n"] += 1
+            v = call(o, "feed", c1, t1, scaled(pins, k))
+            w = fresh[k]
+            out["vals"] = out.get("vals", []) + [w]
+            if (v is None) != (w is None) or (v is not None and abs(v - w) > 1e-5 * max(1.0, abs(w))):
+                out["v"].append(violation("optimum_independent_of_earlier_calls", dict(key, call="feed round, call %d of %s on one object" % (i + 1, seq)),
+                                          "%s %s: feed-maximising call %d (pinned human consumption x%s) on an Optimizer object used before reports %r; a fresh object reports %r for the same arguments" % (iso, pn, i + 1, k, v, w), rp))
+                break
+    if cap.get("inputs"):
+        c, t = cap["inputs"][0]
+        c1, t1 = copy.deepcopy(c), copy.deepcopy(t)
+        with common.quiet():
+            o = Opt(c1, t1)
+        a = call(o, "humans", c1, t1)
+        b = call(o, "humans", c1, t1)
+        out["n"] += 2
+        if (a is None) != (b is None) or (a is not None and abs(a - b) > 1e-5 * max(1.0, abs(a))):
+            out["v"].append(violation("optimum_independent_of_earlier_calls", dict(key, call="people round twice on one object"),
+                                      "%s %s: people-maximising round reports %r, and %r when the same object solves the same arguments again" % (iso, pn, a, b), rp))
+    return out
+
+
 def run(tier, seed):
+    from .. import common
+    rjobs = [(iso, pn, (0.95,) if tier == "quick" else (0.95, 0.9)) for iso, pn in (REUSE_Q if tier == "quick" else REUSE_T)]
+    rres = common.pmap(reuse_job, rjobs, init_fn=pipeline.init, chunksize=1)
     res = pipeline.run_property("C02", tier, seed, ORACLE,
                                 ["CBC and HiGHS are trusted as LP solvers (oracles for one enumerated instance each)",
                                  "cumulative clauses use 1e-5 relative + 1e-6 absolute (sums of up to 120 solver values)"])
@@ -25,11 +115,19 @@ def run(tier, seed):
     cov["states"] += t["solved"] * 3
     cov["transitions"] += t["solved"] * 2
     cov["samples"].append({"tiny": next(iter(tiny.instances(tier)))})
-    res["violations"] = res["violations"] + t["C02"]
+    res["violations"] = res["violations"] + t["C02"] + [v for r in rres for v in r["v"]]
+    cov["optimizer_object_reuse"] = {"instances": [list(j[:2]) for j in rjobs], "calls_on_reused_objects": sum(r["n"] for r in rres),
+                                     "skipped": [r["skipped"] for r in rres if r["skipped"]],
+                                     "feed_calls_without_an_optimum (not judged)": sum(1 for r in rres for w in r.get("vals", []) if w is None),
+                                     "distinct_feed_optima": len({round(w, 3) for r in rres for w in r.get("vals", []) if w is not None}),
+                                     "histories": "feed round: pins as captured, x0.95%s, as captured on one object; people round twice on one object; each compared with a fresh object" % ("" if tier == "quick" else ", x0.9")}
+    cov["executions"] += sum(r["n"] for r in rres)
     return res
 
 
 def replay(rp):
+    if "reuse" in rp:
+        return reuse_job((rp["reuse"][0], rp["reuse"][1], tuple(rp["reuse"][2])))["v"]
     if "tiny" in rp:
         from .. import tiny
         return tiny.replay("C02", rp["tiny"])
